@@ -691,13 +691,14 @@ class CFG:
         if name in self._params:
             return None
         defs = self._rd(name).get(n.id, set())
-        plain = [d for d in defs if d.kind == 'stmt' and isinstance(d.stmt, ast.Assign) and len(d.stmt.targets) == 1
-                 and isinstance(d.stmt.targets[0], ast.Name) and d is not n]
+        plain = [d for d in defs if d.kind == 'stmt' and d is not n and self.def_value(d, name) is not None]
         if not defs or len(plain) != len(defs):
             return None
         return sorted(plain, key=lambda x: x.id)
 
     def _cases(self, n, expr, depth):  # noqa: C901
+        # 0. plain aliases first (x = y, a, b = p, q): what is left are names bound to real expressions
+        expr = self.origin_expr(n, expr) or expr
         # 1. split on local names that have several definitions / a conditional definition: one case per definition, the
         #    definition substituted everywhere in expr so that tests and values stay correlated
         if depth > 0:
@@ -707,11 +708,12 @@ class CFG:
                 defs = self._plain_defs(n, x.id)
                 if defs is None:
                     continue
-                if len(defs) == 1 and _pure_chain(defs[0].stmt.value) and self.dominates(defs[0], n):
+                if len(defs) == 1 and _pure_chain(self.def_value(defs[0], x.id)) and self.dominates(defs[0], n):
                     continue  # a plain alias: origin_expr deals with it
                 res = []
                 for d in defs:
-                    val = self.origin_expr(d, d.stmt.value) or d.stmt.value
+                    dv = self.def_value(d, x.id)
+                    val = self.origin_expr(d, dv) or dv
                     name = x.id
 
                     class R(ast.NodeTransformer):
